@@ -249,6 +249,15 @@ struct SeqEngine final : Engine {
         o.key = vary_bound(pick_bound());
         o.key2 = vary_bound(pick_bound());
         if (r.chance(0.08)) o.key2 = o.key;
+        if (varbound && o.kind == S_SCAN_RANGE && br.chance(0.25)) {
+          // a prefix interval the way callers usually build it: both bounds are views into ONE buffer, one a proper
+          // prefix of the other ([P, P+suffix) or (P+suffix, P]); bit 1 of c asks for that placement
+          std::string longer = o.key;
+          const size_t extra = 1 + br.below(3);
+          for (size_t i = 0; i < extra && longer.size() < 60; i++) longer.push_back(static_cast<char>(br.chance(0.5) ? 0xFF : static_cast<int>(br.below(256))));
+          if (br.chance(0.5)) o.key2 = longer; else { o.key2 = o.key; o.key = longer; }
+          o.c |= 2;
+        }
       } else if (x < scan_rate + 0.02) {
         o.kind = S_EMPTY;
       } else if (x < scan_rate + 0.028 && !(dbkind == 2 && nthreads > 1)) {
@@ -312,7 +321,7 @@ struct SeqEngine final : Engine {
       case S_CLEAR: return "clear()" + t;
       case S_SCAN: return std::string("scan(") + (o.a ? "fwd" : "rev") + (o.b > 0 ? ", halt after " + std::to_string(o.b) : "") + ")" + t;
       case S_SCAN_FROM: return "scan_from(" + hex(o.key) + ", " + (o.a ? "fwd" : "rev") + (o.b > 0 ? ", halt after " + std::to_string(o.b) : "") + ")" + t;
-      case S_SCAN_RANGE: return "scan_range(" + hex(o.key) + ", " + hex(o.key2) + (o.b > 0 ? ", halt after " + std::to_string(o.b) : "") + (o.c ? ", from-buffer above to-buffer" : ", from-buffer below to-buffer") + ")" + t;
+      case S_SCAN_RANGE: return "scan_range(" + hex(o.key) + ", " + hex(o.key2) + (o.b > 0 ? ", halt after " + std::to_string(o.b) : "") + ((o.c & 2) ? ", both bounds views into one buffer" : ((o.c & 1) ? ", from-buffer above to-buffer" : ", from-buffer below to-buffer")) + ")" + t;
       case S_QUIESCE: return "quiescent()" + t;
       case S_PAUSE_RESUME: return "qsbr_pause(); qsbr_resume()" + t;
       case S_LENGTH_ERROR: return std::string("insert with over-long ") + (o.c ? "key" : "value") + " (2^32+" + std::to_string(o.b) + " bytes)" + t;
@@ -346,6 +355,7 @@ struct SeqEngine final : Engine {
     }
     st.bump("reach_prefix_split", o.splits);
     kinds += o.splits != 0;
+    st.bump("scan_ranges_with_both_bounds_in_one_buffer", o.aliased_bounds);
     st.bump("scans", o.scans); st.bump("scan_visits", o.scan_visits); st.bump("value_views_rechecked", o.views_checked);
     st.bump("fault_points_tried", o.fault_points); st.bump("alloc_faults_delivered", o.faults_delivered); st.bump("length_errors_delivered", o.length_errors);
     static const char* dbn[] = {"histories_db", "histories_mutex_db", "histories_olc_db"};
